@@ -90,7 +90,6 @@ def norm_content(c: dict) -> dict:
 def functions_of(c: dict) -> dict:
     """python function name -> {"params", "body"} for every function of the model (insertion order = use order)."""
     fns: dict = {}
-    used_calls = False
 
     def add(tag: str, f: dict):
         fns[tag] = {"params": list(f["params"]), "body": [{"k": "ret", "e": f["e"]}]}
@@ -108,7 +107,6 @@ def functions_of(c: dict) -> dict:
         for m, (v, co) in enumerate(r["st"].items()):
             if co["k"] == "calc":
                 add(f"f_r{j}_s{m}", co["fn"])
-    del used_calls
     return fns
 
 
@@ -123,8 +121,6 @@ def build_model(c: dict, moddir: Path, modname: str):
     render.write_module(moddir, modname, src)
     mod = render.load_module(moddir, modname)
     m = Model()
-    for j, (n, v) in enumerate(c["init"].items()):
-        pass
     ivn = {n: j for j, n in enumerate(c["init"])}
     for n in c["vars"]:
         v = c["init"][n]
